@@ -46,6 +46,8 @@ def drive(sc):
     feeds = [("A", la), ("B", 1), ("B", 1)]
   elif plan == "single":
     feeds = [("B", 1)] + [("A", 1)] * la + [("B", 1)]
+  elif plan == "together":    # (controller loop) A's whole stream and B's first message readable in the same select round
+    feeds = [("A+B", la), ("B", 1)]
   else:  # "split": everything before the fault, then the rest
     feeds = [("A", pos - 1)] if pos > 1 else []
     feeds += [("B", 1), ("A", la - pos + 1), ("B", 1)]
@@ -56,6 +58,10 @@ def drive(sc):
   lp = Loop(["A", "B"])
   try:
     for (cn, k) in feeds:
+      also = None
+      if cn == "A+B":
+        cn = "A"
+        also = ("B", msgs["B"][fed["B"]])
       if k == 0 or not lp.alive or not isopen[cn]:
         continue        # nothing is sent on a connection the other side has closed
       data = b"".join(msgs[cn][fed[cn]:fed[cn] + k])
@@ -65,7 +71,12 @@ def drive(sc):
       fed[cn] += k
       if eof:
         events.append({"e": "eof", "c": cn, "k": 0, "i": 0})
-      o = lp.feed(cn, data, eof=eof)
+      if also is not None:
+        events.append({"e": "feed", "c": "B", "k": 1, "i": 0})
+        fed["B"] += 1
+        o = lp.feed(cn, data, eof=eof, also=also)
+      else:
+        o = lp.feed(cn, data, eof=eof)
       if o["diverged"]:
         events.append({"e": "diverged", "c": cn, "k": 0, "i": 0})
         break
@@ -148,7 +159,7 @@ def scenarios(quick, rnd):
           for (la, pos) in ([(3, 2), (1, 1), (2, 2)] if quick else [(1, 1), (2, 1), (2, 2), (3, 1), (3, 2), (3, 3)]):
             if fault == "TRUNCATED" and pos != la:
               continue
-            for plan in ("batch", "single", "split"):
+            for plan in ("batch", "single", "split") + (("together",) if side == "ctl" else ()):
               out.append((side, kind, fault, param, pos, la, plan))
   # two corrupted fields in one header (version or type, and the length)
   for side in ("ctl", "sw"):
